@@ -11,7 +11,7 @@ ID = 'C02'
 PROPS_FILE = 'theories/Props/C02.v'
 PROPS_MODULE = 'Props.C02'
 COQ_TARGETS = ['theories/Extract/ExtractSyntax.vo']
-REQUIRED_THEOREMS = ['C02_roundtrip_simple_partial', 'C02_simple_is_wellformed', 'C02_layout_independent_simple_partial', 'C02_roundtrip_statement_refuted_by_D7', 'C02_roundtrip_multiline_partial', 'C02_multiline_is_wellformed', 'C02_layout_independent_multiline_partial', 'C02_simple_in_multiline', 'C02_roundtrip_select_partial', 'C02_select_is_wellformed', 'C02_layout_independent_select_partial', 'C02_select_depth_monotone']
+REQUIRED_THEOREMS = ['C02_roundtrip_simple_partial', 'C02_simple_is_wellformed', 'C02_layout_independent_simple_partial', 'C02_roundtrip_statement_refuted_by_D7', 'C02_roundtrip_multiline_partial', 'C02_multiline_is_wellformed', 'C02_layout_independent_multiline_partial', 'C02_simple_in_multiline', 'C02_roundtrip_select_partial', 'C02_select_is_wellformed', 'C02_layout_independent_select_partial', 'C02_select_depth_monotone', 'C02_roundtrip_wellformed_partial', 'C02_layout_independent_wellformed_partial', 'C02_roundtrip_nested_partial', 'C02_nested_is_wellformed', 'C02_wellformed_in_nested']
 MODEL = 'syn'
 HARNESS_BINS = ['syn_run']
 ANCHORS = ['fluent-syntax/src/parser/core.rs', 'fluent-syntax/src/parser/pattern.rs', 'fluent-syntax/src/parser/expression.rs',
@@ -465,21 +465,20 @@ def nontrivial(case, out):
     return out if ('(msg ' in out or '(term ' in out) else None
 
 
-PARTIAL = ('the full round trip parse (render cs t) = t for ALL well-formed trees is stated (C02_roundtrip_statement) but proved only for the '
-           'fragment sel_resource d for every nesting depth d (stand-alone and attached comments; messages/terms whose values and attributes are '
-           'multi-line patterns — uneven indentation, blank lines, placeable-led lines — with placeables holding simple inline expressions, nested '
-           'placeables and select expressions with literal/variable selectors; ALL layouts). Function/term calls with arguments and term-attribute '
-           'selectors are covered by the spec-driven oracle only. The full statement is refuted on the current tree '
-           'by the known finding D7 (theorem C02_roundtrip_statement_refuted_by_D7).')
+PARTIAL = ('the round trip parse (render cs t) = t is PROVED for ALL well-formed trees (wf_resource, all text valid UTF-8) and ALL layouts, under ONE extra '
+           'premise: the last line of every comment contains a non-space byte (comments_end_ok). That premise excludes the shape of the known '
+           'finding D7 (a comment whose last line is empty, at the end of input without a final line end, parses to a comment with one line '
+           'fewer) and, more than necessary, whitespace-only last comment lines in harmless positions. The unrestricted statement is refuted '
+           'on the current tree by D7 (theorem C02_roundtrip_statement_refuted_by_D7). Adequacy of Render.v w.r.t. the Fluent EBNF is trusted.')
 
 MANIFEST = {
     'text': 'The Fluent grammar is formalised as a printer with layout choices (Render.v: render, wf_resource); the property is the '
-            'round trip parse (render cs t) = t for all well-formed t and all layouts cs. PROVED in Rocq for the fragment '
-            'sel_resource d (comments incl. attached; multi-line patterns with the dedent rule; nested placeables; select expressions to any '
-            'depth) under every layout (C02_roundtrip_select_partial, layout independence as a corollary); for the rest of the '
-            'grammar (function/term call arguments, term-attribute selectors) the implementation is tested directly against the '
-            'extracted formal printer on every run (random trees x random layouts, systematic per-construct layouts), and the model '
-            'parser is tied to the real one by the correspondence check.',
+            'round trip parse (render cs t) = t for all well-formed t and all layouts cs. PROVED in Rocq for every well-formed tree '
+            '(comments, attributes, multi-line patterns with the dedent rule, nested placeables, selects, call arguments of any nesting '
+            'depth) and every layout, with the single extra premise comments_end_ok (C02_roundtrip_wellformed_partial); layout '
+            'independence as a corollary. On every run the implementation is also tested directly against the extracted formal printer '
+            '(random trees x random layouts, systematic per-construct layouts) and against the reference JSON trees of the repo fixtures; '
+            'the model parser is tied to the real one by the correspondence check.',
     'note': 'PARTIAL proof (fragment). Trusted: Render.v as our reading of the Fluent 1.0 EBNF (validated by tests only); parser model '
             'trusted base as C01. Known finding D7 refutes the unrestricted statement (comment whose last line is empty at end of input).',
     'technique': 'Rocq proof (print/parse round-trip lemmas over the parser model, fragment) + spec-driven differential testing with the extracted printer',
